@@ -40,7 +40,11 @@ RULE = ("for every generated program (function, or class with invariants and met
         "stepped by hand under a generated schedule; each may be closed or have CancelledError / an exception / "
         "KeyboardInterrupt thrown in at a suspension point), then every callable is probed with each of its contracts "
         "violated and with all holding; oracle = the stand-alone trace and verdict. non-trivial there = the calls did "
-        "not end in reverse order of their start.")
+        "not end in reverse order of their start. Plus a context-history family: 1..6 checked calls (function with a "
+        "precondition / method of an invariant-carrying object; ending normally, with a violation, with an Exception or "
+        "KeyboardInterrupt from the body) made in the thread's own context and in contexts copied from it "
+        "(copy_context().run, a copy of a copy), then both callables are probed in every context; non-trivial there = at "
+        "least one call was made in a copied context.")
 ASSUMPTIONS = ["faults are injected where user code runs, not between arbitrary bytecodes of the wrappers",
                "the content of the suspension set is read through icontract._checkers._IN_PROGRESS when it exists "
                "(secondary observation)"]
@@ -640,6 +644,112 @@ def st_interleaved(draw):
     return {"names": names, "schedule": [list(x) for x in schedule]}
 
 
+def context_history_case(ctx, case):
+    """A history of checked calls made in the thread's own context and in contexts COPIED from it (contextvars.copy_context()
+    .run, as asyncio tasks and to_thread do), each ending normally, with a violation or with an exception from the body.
+    Afterwards the thread's own context - and every copy - checks each callable as a fresh process would."""
+    import contextvars
+
+    import icontract
+
+    log, truth = [], {}
+    raise_in_body = []
+
+    def pre(x):
+        log.append(("f", "pre"))
+        return truth.get(("f", "pre"), True)
+
+    @icontract.require(pre)
+    def f(x):
+        log.append(("f", "body"))
+        if raise_in_body:
+            raise make_fault(raise_in_body[0])
+        return x
+
+    def inv(self):
+        log.append(("o", "inv"))
+        return truth.get(("o", "inv"), True)
+
+    @icontract.invariant(inv)
+    class K:
+        def m(self, x):
+            log.append(("o", "body"))
+            if raise_in_body:
+                raise make_fault(raise_in_body[0])
+            return x
+
+    o = K()
+    contexts = {"own": None}
+
+    def in_context(name, fn):
+        if name == "own":
+            return fn()
+        return contexts[name].run(fn)
+
+    def one_call(target, how):
+        truth.clear()
+        del raise_in_body[:]
+        if how == "violate":
+            truth[("f", "pre") if target == "f" else ("o", "inv")] = False
+        elif how != "ok":
+            raise_in_body.append(how)
+        try:
+            (f if target == "f" else o.m)(1)
+        except BaseException:  # noqa - the history only needs the call to have ended somehow
+            pass
+        finally:
+            truth.clear()
+            del raise_in_body[:]
+
+    for step in case["steps"]:
+        where, target, how = step
+        if where.startswith("copy") and where not in contexts:
+            # a copy is taken from the thread's own context at the moment it is first used (``copy2`` from ``copy1``)
+            src = "copy1" if where == "copy2" and "copy1" in contexts else "own"
+            contexts[where] = in_context(src, contextvars.copy_context)
+        in_context(where, lambda: one_call(target, how))
+    ctx.case(["context-history", case["steps"]], any(s[0] != "own" for s in case["steps"]),
+             sample={"context-history": case["steps"]})
+    ctx.count("context-history:steps=%d" % len(case["steps"]))
+    for where in contexts:
+        for target, role in (("f", "pre"), ("o", "inv")):
+            for violated in (True, False):
+                del log[:]
+                truth.clear()
+                if violated:
+                    truth[(target, role)] = False
+
+                def probe():
+                    try:
+                        return ("ret", (f if target == "f" else o.m)(1))
+                    except icontract.ViolationError:
+                        return ("violation",)
+                    except BaseException as e:  # noqa
+                        return ("exc", type(e).__name__)
+
+                out = in_context(where, probe)
+                alone = [("f", "pre"), ("f", "body")] if target == "f" else [("o", "inv"), ("o", "body"), ("o", "inv")]
+                want_out, want_log = (("violation",), alone[:1]) if violated else (("ret", 1), alone)
+                ctx.evaluations += 1
+                if out != want_out or log != want_log:
+                    ctx.fail("context-history|probe-not-checked-as-fresh|%s|%s" % ("own" if where == "own" else "copy", target),
+                             dict(case, context_history=True),
+                             "after the history %r the probe of %s in the context %r with %s gave %r evaluating %r; a fresh process "
+                             "gives %r evaluating %r" % (case["steps"], target, where, "the contract violated" if violated else
+                                                         "all contracts holding", out, log, want_out, want_log))
+                    truth.clear()
+                    return
+    truth.clear()
+
+
+@st.composite
+def st_context_history(draw):
+    hows = ["ok", "ok", "violate", "ProgError", "KeyboardInterrupt"]
+    steps = draw(st.lists(st.tuples(st.sampled_from(["own", "own", "copy1", "copy2"]), st.sampled_from(["f", "o"]),
+                                    st.sampled_from(hows)), min_size=1, max_size=6))
+    return {"steps": [list(x) for x in steps]}
+
+
 def interleaved(ctx, seed, n):
     # directed: f starts, g starts, f ends, g ends (non-LIFO), for every pair of kinds
     for names in (["f0", "f1"], ["f0", "o0"], ["o0", "o1"], ["f0", "f1", "o0"]):
@@ -654,6 +764,17 @@ def interleaved(ctx, seed, n):
         interleaved_case(ctx, case)
 
     core.run_hypothesis(test, seed, n)
+
+    for steps in ([["own", "f", "ok"], ["copy1", "f", "ok"]], [["own", "o", "ok"], ["copy1", "o", "ok"]],
+                  [["own", "f", "ok"], ["copy1", "f", "violate"], ["copy2", "f", "ok"]],
+                  [["own", "o", "ok"], ["copy1", "f", "KeyboardInterrupt"], ["own", "f", "ok"], ["copy2", "o", "ProgError"]]):
+        context_history_case(ctx, {"steps": steps})
+
+    @given(st_context_history())
+    def test2(case):
+        context_history_case(ctx, case)
+
+    core.run_hypothesis(test2, seed, n)
 
 
 def run(ctx, tier, seed, shard, nshards):
@@ -676,6 +797,11 @@ def run(ctx, tier, seed, shard, nshards):
 def replay(ctx, case):
     import warnings
 
+    if case.get("context_history"):
+        before = ctx.evaluations
+        context_history_case(ctx, case)
+        ctx.evaluations = before + 1
+        return
     if case.get("interleaved"):
         before = ctx.evaluations
         interleaved_case(ctx, case)
